@@ -23,7 +23,7 @@ PROP_RULES = {
     "C15": {"NoWorkerCrash", "NoInternalError", "FailureContained", "AwaitersFail", "ResultStable"},
     "C13": {"RefsUnique"},
     "C14": {"UseOnlyByOwner", "NeverReachesBackend", "NoCloseWhileOwnerAlive", "ClosedExactlyOnceAtExit", "OwnerCanUse",
-            "ContentPreserved"},
+            "ContentPreserved", "ClosedAtExitNeverReported", "ClosedAtExitDeliveredToFinished"},
     "C06": {"Counted", "NoReachableFreed", "FreeList", "NoOrphan", "ContentStable", "ContentPreserved",
             "RefcountAssertion"},
 }
@@ -223,6 +223,9 @@ def select_scenarios(prop, tier):
         # seeded random well-typed systems (no promise about termination or confluence)
         k = 25 if tier == "quick" else 160
         fams += [families.random_scenario(common.seed() * 1000 + i, 2) for i in range(k)]
+    if prop == "C14":
+        # seeded random resource systems (open / use / close / send / receive handles; refused uses; failures)
+        fams += [families.random_resource_scenario(common.seed() * 1000 + i, 2) for i in range(20 if tier == "quick" else 200)]
     if os.environ.get("RT_ONLY"):       # development aid: only the scenarios whose name contains the given text
         return [s for s in fams if os.environ["RT_ONLY"] in s["name"]]
     if prop == "C05":
@@ -335,6 +338,12 @@ def run(prop, tier, check=None):
     reported = set()
     for v in mine:
         key = "%s:%s" % (re.sub(r"_w\d+$", "", v["run"].split("#")[0]), v["rule"])
+        if v["rule"] == "ClosedAtExitNeverReported":
+            # the pinned finding, identified by its history (the owner's completion never reached the environment),
+            # in whatever scenario it occurs
+            key = "res_owner_unawaited:ClosedExactlyOnceAtExit"
+        if v["rule"] == "ClosedAtExitDeliveredToFinished":
+            key = "res_delivered_to_finished:ClosedExactlyOnceAtExit"
         if key in reported:
             continue
         reported.add(key)
